@@ -210,6 +210,37 @@ def bounded(b):
                             key=repr)
                 b.case("merge/directions_once_each_at_the_same_musical_time", gd == sorted(dirs, key=repr), case,
                        "directions %r, the inputs hold %r" % ([(a, t, str(x)) for a, t, x, _ in gd][:8], [(a, t, str(x)) for a, t, x, _ in sorted(dirs, key=repr)][:8]))
+    # far into a piece on a fine common grid: positions a few divisions apart stay apart (768 and 10080 divisions, lcm 80640; bar 3 ends at 967 680)
+    pa = G.build_part("P0", 10080, notes=[("a0", 0, 120958, "C", None, 4, 1, 1), ("a1", 120958, 1, "D", None, 4, 1, 1), ("a2", 120959, 1, "E", None, 4, 1, 1), ("a3", 120961, 3, "F", None, 4, 1, 1)],
+                      measures=[(0, 40320), (40320, 80640), (80640, 120960), (120960, 161280)])
+    pb = G.build_part("P1", 768, notes=[("b0", 0, 9216, "C", None, 3, 1, 1), ("b1", 9216, 3072, "G", None, 2, 1, 1)], measures=[(0, 3072), (3072, 6144), (6144, 9216), (9216, 12288)])
+    case = {"config": "positions_a_few_divisions_apart_far_into_the_piece", "divisions": [10080, 768]}
+    want = sorted([(n.start.t * 8, (n.end.t - n.start.t) * 8, n.midi_pitch) for n in pa.notes] + [(n.start.t * 105, (n.end.t - n.start.t) * 105, n.midi_pitch) for n in pb.notes])
+    ok, mg = b.guard("merge/no_exception", case, lambda: sc.merge_parts([pa, pb]))
+    if ok:
+        got = sorted((n.start.t, n.end.t - n.start.t, n.midi_pitch) for n in mg.notes)
+        b.case("merge/positions_rescaled_to_the_lcm_of_the_divisions", got == want, case, "merged notes (onset, duration, pitch) %r, rescaled inputs %r" % (got, want))
+    # element classes defined by the user AFTER merges have already run in this process (a lyric line, a bowing mark, a harmonic)
+    class Lyric(sc.Words):
+        pass
+
+    class Bowing(sc.TimedObject):
+        pass
+
+    class Flageolet(sc.Note):
+        pass
+    pa, pb = _mk_part("P0", 2, [1], 1, 4), _mk_part("P1", 3, [1], 1, 3)
+    pa.add(Lyric("la", staff=1), 0)
+    pb.add(Lyric("li", staff=1), 3)
+    pa.add(Bowing(), 2, 4)
+    pb.add(Flageolet("E", 6, id="flag", voice=1, staff=1), 0, 3)
+    case = {"config": "element_classes_defined_after_earlier_merges"}
+    n_notes = len(pa.notes) + len(pb.notes)
+    ok, mg = b.guard("merge/no_exception", case, lambda: sc.merge_parts([pa, pb]))
+    if ok:
+        have = (len(list(mg.iter_all(Lyric))), len(list(mg.iter_all(Bowing))), len(list(mg.iter_all(Flageolet))), len(mg.notes))
+        b.case("merge/rests_and_non_structural_elements_at_the_same_musical_time", have == (2, 1, 1, n_notes), case,
+               "the merged part holds %r lyric / bowing / harmonic objects and notes, the inputs %r" % (have, (2, 1, 1, n_notes)))
     # parts that share an id (two separately loaded single-part files) are still two parts
     pa, pb = _mk_part("P1", 2, [1], 1, 4), _mk_part("P1", 3, [1, 2], 1, 3)
     for n in pb.iter_all(sc.GenericNote, include_subclasses=True):
